@@ -29,3 +29,21 @@ Lemma tie_generated_fmtqfn : forall (dir : bytes) (id split : N) (flag : bool) (
   option_map (fun r => (fst r, C_fmtqfn.a_s (snd r))) (C_fmtqfn.run (22 + length dir) buf 0 (zs dir ++ [0]) 0 (Z.of_N id) (b2z flag) (Z.of_N split))
   = Some (Z.of_nat (S (length (Gen_names.qfn dir id split flag))), zs (Gen_names.qfn dir id split flag) ++ [0] ++ skipn (S (length (Gen_names.qfn dir id split flag))) buf).
 Proof. exact Gen_names.gen_fmtqfn_eq. Qed.
+(* main() of today's qmail-clean.c, translated whole to Gallina by tools/c2gallina.py (gen/CGen.v, module C_clean_main; getln, memcmp
+   and unlink are stubs - unlink logs its path and answers from a run parameter): for every stream of requests and every sequence of
+   unlink answers, the status bytes written and the paths passed to unlink are exactly the model's clean_handle, request by request *)
+From NQ Require Tie.Gen_clean.
+Lemma tie_generated_clean_main : forall (split : N) (reqs : list bytes) (res : list Z) (line0 out0 fnbuf0 log0 : list Z) (len0 : Z),
+  Forall (fun r => bytes_ok r /\ ~ In 0%N r) reqs -> Z.of_nat (length (Gen_clean.stream_of reqs)) < 2 ^ 31 -> (0 < split < 2147483648)%N -> length fnbuf0 = 40%nat ->
+  Forall (fun r => 0 <= r < 2 ^ 31) res ->
+  exists st, C_clean_main.run (30 + length (Gen_clean.stream_of reqs)) (Gen_clean.stream_of reqs) 0 line0 len0 out0 fnbuf0 (Z.of_N split) res log0 0 = Some (0, st) /\
+    C_clean_main.a_subfdoutsmall__out st = out0 ++ zs (snd (Gen_clean.clean_all split reqs res)) /\
+    C_clean_main.a_unlink__log st = log0 ++ Gen_clean.log_of (fst (Gen_clean.clean_all split reqs res)).
+Proof. exact Gen_clean.gen_clean_main_all. Qed.
+Lemma tie_generated_clean_main_one : forall (split : N) (req : bytes) (r1 r2 : Z) (line0 out0 fnbuf0 log0 : list Z) (len0 : Z),
+  bytes_ok req -> ~ In 0%N req -> Z.of_nat (length req) < 2 ^ 31 -> (0 < split < 2147483648)%N -> length fnbuf0 = 40%nat ->
+  0 <= r1 < 2 ^ 31 -> 0 <= r2 < 2 ^ 31 ->
+  exists st, C_clean_main.run (30 + length req) (zs req ++ [0]) 0 line0 len0 out0 fnbuf0 (Z.of_N split) [r1; r2] log0 0 = Some (0, st) /\
+    C_clean_main.a_subfdoutsmall__out st = out0 ++ zs (snd (Clean.clean_handle split req (Gen_clean.ures_of r1) (Gen_clean.ures_of r2))) /\
+    C_clean_main.a_unlink__log st = log0 ++ Gen_clean.log_of (fst (Clean.clean_handle split req (Gen_clean.ures_of r1) (Gen_clean.ures_of r2))).
+Proof. exact Gen_clean.gen_clean_main_one. Qed.
